@@ -45,7 +45,19 @@ SECTION = {
     "concat": ["performance"], "regex": ["performance"], "stringly": ["stringly-typed"],
     "unwrap": ["unwrap-abuse"], "clone": ["clone-abuse"], "blocking": ["blocking-async"],
 }
-CMD = dict(seeds.FAMILY_CMD, dry="dry", stringly="stringly-typed")
+CMD = dict(seeds.FAMILY_CMD, dry="dry", stringly="stringly-typed", combo_py="improper-logging", combo_ts="improper-logging", combo_js="improper-logging",
+           combo_rs="unwrap-abuse")
+
+
+def combo_seed(lang, u):
+    """One line that carries violations of TWO rules (a print / unwrap call with a magic number in it): a directive
+    naming one of them must leave the other alone."""
+    m = 1300 + 7 * u
+    if lang == "py":
+        return seeds.Snippet([f"def combo_{u}(a{u}):", f"    print(a{u} * {m})", f"    return a{u}"], [], "combo")
+    if lang in ("ts", "js"):
+        return seeds.Snippet([f"function combo_{u}(a{u}{seeds._ann(lang, 'number')}) {{", f"    console.log(a{u} * {m});", f"    return a{u};", "}"], [], "combo")
+    return seeds.Snippet([f"fn combo_{u}(x{u}: Option<i32>) -> i32 {{", f"    let v{u} = x{u}.unwrap() + {m};", f"    v{u}", "}"], [], "combo")
 CROSS = ("dry", "stringly")
 
 
@@ -53,7 +65,7 @@ def families_for(lang):
     fams = [f for f in seeds.families(lang) if f != "lazy"]
     if lang in ("py", "ts", "js"):
         fams += list(CROSS)
-    return fams
+    return fams + ["combo_" + lang]
 
 
 def matrix():
@@ -62,9 +74,11 @@ def matrix():
         for fam in families_for(lang):
             for form in FORMS:
                 for placement in ("in", "out"):
-                    for naming in ("target", "other"):
+                    for naming in ("target", "other", "colocated"):
                         if form in ("repo",) and naming == "other":
                             continue  # a repository pattern names no rule
+                        if naming == "colocated" and (not fam.startswith("combo_") or form in ("repo", "linter", "file")):
+                            continue  # naming the OTHER rule that sits on the same line
                         if form in ("repo", "linter"):
                             for pat in range(4):
                                 for carrier in (("thailintignore", "config") if form == "repo" else ("section",)):
@@ -79,6 +93,8 @@ def filling(rng, lang, fam):
     enumerated completely, so the filling comes from a PRNG seeded by (VERIF_SEED, cell, repetition): a pure
     function of the seed, recorded in the case, hence replayable without the generator."""
     pool = [f for f in seeds.families(lang) if f not in (fam, "lazy")]
+    if fam.startswith("combo_"):
+        pool = [f for f in pool if f not in ("print", "unwrap", "magic")]  # keep the two combined rules to the combo lines
     if fam == "concat":
         pool = [f for f in pool if f != "regex"]  # same linter section (performance)
     if fam == "regex":
@@ -110,6 +126,9 @@ def build(case):
         parts.append(seeds.Snippet(_second_occurrence(lang, fam), [], fam))
         if fam == "dry":
             config["dry"] = {"enabled": True}
+    elif fam.startswith("combo_"):
+        parts.append(combo_seed(lang, 11))
+        parts.append(combo_seed(lang, 12))
     else:
         parts.append(seeds.seed(fam, lang, 11, f["vars"][0]))
         parts.append(seeds.seed(fam, lang, 12, f["vars"][1]))
@@ -245,6 +264,11 @@ def check(case) -> Case:
         other_rule = sorted({v["rule_id"] for v in oviol if v["line"] != anchor})[0] if [v for v in oviol if v["line"] != anchor] else None
         if naming == "other" and other_rule is None:
             return Case(h(case), False, labels + ["no-other-rule"], [])
+        if naming == "colocated":
+            co = sorted({v["rule_id"] for v in before if v["file_path"] == main and v["line"] == anchor and v["rule_id"] != rule})
+            if not co:
+                return Case(h(case), False, labels + ["no-colocated-rule"], [])
+            other_rule = co[0]
         src_lines = files[main].rstrip("\n").split("\n")
         viol_lines = {v["line"] for v in before if v["file_path"] == main}
         # neutral host for out-of-scope placements: body line of the first filler (line 2), two lines away from anything
@@ -256,7 +280,7 @@ def check(case) -> Case:
         spellings = SPELLINGS if form in ("sameline", "nextline", "block", "file") else ("n/a",)
         verdicts = {}
         for sp in spellings:
-            named_rule = rule if naming == "target" else other_rule
+            named_rule = rule if naming == "target" else other_rule  # "colocated": the other rule on the anchor line
             if form in ("repo", "linter"):
                 ext = seeds.EXT[lang]
                 pidx = case.get("pattern", case["fill"]["pattern"])
